@@ -1312,6 +1312,8 @@ impl Gc {
         unsafe {
             info!("Start collect {:?}", self.generation);
             roots.scope(self, |self_| {
+                #[cfg(gluon_verif)]
+                let _verif_guard = crate::verif::enter_roots(self_.verif_id);
                 roots.trace(self_);
                 self_.sweep();
                 self_.collect_limit = 2 * self_.allocated_memory;
@@ -1323,6 +1325,10 @@ impl Gc {
     /// Returns true if the pointer was already marked
     pub fn mark<T: ?Sized>(&mut self, value: &GcPtr<T>) -> bool {
         let header = value.header();
+        #[cfg(gluon_verif)]
+        if let Some(seen) = crate::verif::walk_mark(header as *const GcHeader as usize) {
+            return seen;
+        }
         // We only need to mark and trace values from this garbage collectors generation
         if header.generation().is_parent_of(self.generation()) || header.marked.get() {
             true
